@@ -61,7 +61,7 @@ def atoms_part(draw, max_atoms=4, cz_hi=6.0):
 
 @st.composite
 def frozen_phonons_spec(draw):
-    n = draw(st.integers(1, 4))
+    n = draw(st.sampled_from([1, 2, 2, 3, 4]))
     seed_kind = draw(st.sampled_from(["int", "tuple"]))
     seed = draw(st.integers(0, 10**6)) if seed_kind == "int" else sorted(set(draw(st.lists(st.integers(0, 10**6), min_size=n, max_size=n, unique=True))))
     return {
@@ -75,7 +75,7 @@ def frozen_phonons_spec(draw):
 
 @st.composite
 def builder_case(draw, with_array):
-    kinds = ["atoms", "frozen_phonons", "frozen_phonons", "atoms_ensemble", "crystal", "crystal", "crystal_fp", "crystal_fp"]
+    kinds = ["atoms", "frozen_phonons", "frozen_phonons", "frozen_phonons", "atoms_ensemble", "atoms_ensemble", "crystal", "crystal", "crystal_fp", "crystal_fp"]
     if with_array:
         kinds += ["array", "array", "array_ensemble"]
     kind = draw(st.sampled_from(kinds))
@@ -93,7 +93,7 @@ def builder_case(draw, with_array):
     if kind in ("frozen_phonons", "crystal_fp"):
         case["fp"] = draw(frozen_phonons_spec())
     if kind == "atoms_ensemble":
-        case["fp"] = {"num_configs": draw(st.integers(1, 4)), "seed": draw(st.integers(0, 10**6)), "ensemble_mean": draw(st.booleans())}
+        case["fp"] = {"num_configs": draw(st.sampled_from([1, 2, 2, 3, 4])), "seed": draw(st.integers(0, 10**6)), "ensemble_mean": draw(st.booleans())}
     if kind.startswith("crystal"):
         case["reps"] = [draw(st.integers(1, 2)), draw(st.integers(1, 2)), draw(st.integers(1, 3))]
         case["unit_built"] = draw(st.booleans())  # hand CrystalPotential a PotentialArray instead of a builder
@@ -101,12 +101,12 @@ def builder_case(draw, with_array):
         if seeds_kind == "none":
             case["seeds"], case["num_frozen_phonons"] = None, None
         elif seeds_kind == "tuple":
-            m = draw(st.integers(1, 3))
+            m = draw(st.sampled_from([1, 2, 2, 3]))
             case["seeds"] = draw(st.lists(st.integers(0, 10**6), min_size=m, max_size=m, unique=True))
             case["num_frozen_phonons"] = None
         else:
             case["seeds"] = draw(st.integers(0, 10**6))
-            case["num_frozen_phonons"] = draw(st.integers(1, 3))
+            case["num_frozen_phonons"] = draw(st.sampled_from([1, 2, 2, 3]))
         case["crystal_ensemble_mean"] = draw(st.booleans())
     return case
 
@@ -231,7 +231,7 @@ def check_eager_lazy_build(case, ctx):
 
     kind = case["kind"]
     ctx.label("crystal" if kind.startswith("crystal") else "potential")
-    ctx.label(kind)
+    ctx.label("kind:" + kind)
     ctx.label(case["projection"])
     pot, configs = make_builder(abtem, case)
     ens = tuple(pot.ensemble_shape)
@@ -318,7 +318,7 @@ def check_slice_window(case, ctx):
     kind = case["kind"]
     kc = _kind_class(kind)
     ctx.label(kc)
-    ctx.label(kind)
+    ctx.label("kind:" + kind)
     pot, aux = make_builder(abtem, case)
     n = pot.num_slices
     if len(pot.slice_thickness) != n or len(pot) != n:
